@@ -61,43 +61,44 @@ Proof. intros [n a b c d]. reflexivity. Qed.
 Lemma map_of_to_text : forall l, map of_text (map to_text l) = l.
 Proof. induction l as [|r l IH]; [reflexivity|]. cbn [map]. now rewrite of_to_text, IH. Qed.
 
+(* no longer a premise of the theorems below: since the `fix:` commit 24986d3 the fai reader takes
+   names as bytes (C17 fai_roundtrip has no UTF-8 premise) *)
 Definition utf8_names (recs : list fai) : Prop :=
   Forall (fun r => TextIndex.utf8_valid (f_name r) = true) recs.
 
 Theorem index_via_file_exact : forall f recs e,
-  index_file f = (recs, e) -> len f < 2 ^ 64 -> utf8_names recs ->
+  index_file f = (recs, e) -> len f < 2 ^ 64 ->
   read_fai_file (write_fai_file recs) = Some recs.
 Proof.
-  intros f recs e H Hsz Hu. unfold read_fai_file, write_fai_file.
+  intros f recs e H Hsz. unfold read_fai_file, write_fai_file.
   rewrite TextIndexProofs.fai_roundtrip.
   - cbn [option_map]. now rewrite map_of_to_text.
   - apply Forall_forall. intros t Ht. apply in_map_iff in Ht. destruct Ht as [r [<- Hin]].
     destruct (fai_bounds _ _ _ _ H Hin) as [H1 [H2 [H3 [H4 [_ Hws]]]]].
-    unfold utf8_names in Hu. rewrite Forall_forall in Hu, Hws.
+    rewrite Forall_forall in Hws.
     change (2 ^ 64) with 18446744073709551616 in Hsz.
     unfold TextIndexProofs.fai_ok, TextIndexProofs.fits_u64, to_text.
     cbn [TextIndex.f_name TextIndex.f_len TextIndex.f_pos TextIndex.f_lb TextIndex.f_lw].
     repeat split; try lia.
-    + apply Hu. exact Hin.
     + intros Hin'. specialize (Hws _ Hin'). discriminate.
     + intros Hin'. specialize (Hws _ Hin'). discriminate.
 Qed.
 
 Theorem index_via_file_same : forall f,
-  len f < 2 ^ 64 -> utf8_names (fst (index_file f)) ->
+  len f < 2 ^ 64 ->
   index_via_file f = Some (fst (index_file f)).
 Proof.
-  intros f Hsz Hu. unfold index_via_file.
+  intros f Hsz. unfold index_via_file.
   destruct (index_file f) as [recs e] eqn:H. cbn [fst] in *.
-  exact (index_via_file_exact f recs e H Hsz Hu).
+  exact (index_via_file_exact f recs e H Hsz).
 Qed.
 
 (* queries through the index that went through the file = queries through the index in memory *)
 Theorem query_via_file_same : forall f name s e,
-  len f < 2 ^ 64 -> utf8_names (fst (index_file f)) ->
+  len f < 2 ^ 64 ->
   query_via_file f name s e = VOk (index_and_query f name s e).
 Proof.
-  intros f name s e Hsz Hu. unfold query_via_file. now rewrite index_via_file_same.
+  intros f name s e Hsz. unfold query_via_file. now rewrite index_via_file_same.
 Qed.
 
 Lemma find_record_in : forall idx name r, find_record idx name = Some r -> In r idx.
@@ -109,7 +110,7 @@ Qed.
 (* ... hence exact: the index built by the indexer, written, read back, answers every region
    query (name lookup included) with exactly the bases of the naive parse *)
 Theorem via_file_query_exact : forall f recs err name r s e,
-  index_file f = (recs, err) -> len f < 2 ^ 64 -> utf8_names recs ->
+  index_file f = (recs, err) -> len f < 2 ^ 64 ->
   find_record recs name = Some r ->
   exists body, record_lines f r body /\
     let B := naive_bases body in
@@ -121,7 +122,7 @@ Theorem via_file_query_exact : forall f recs err name r s e,
     query_via_file f name s e
     = VOk (QOk (firstn (N.to_nat (en - st + 1)) (skipn (N.to_nat (st - 1)) B))).
 Proof.
-  intros f recs err name r s e H Hsz Hu Hf.
+  intros f recs err name r s e H Hsz Hf.
   pose proof (find_record_in _ _ _ Hf) as Hin.
   destruct (query_exact_gen f recs err r true s e H Hin) as [body [Hb Hq]].
   exists body. split; [exact Hb|]. cbv zeta in *. intros Hh H1 H2 H3 H4 H5.
